@@ -161,6 +161,7 @@ def run(R):
     r12(R)
     r13(R)
     r14(R)
+    r15(R)
     R.rule("C05-R7", "match-or-bind is the last word on a binding row: after a premise position was matched against (or bound in) a row by "
                      "a match-or-bind helper, nothing overwrites entries of that row before it is emitted - a plain insert after the "
                      "test can replace the very value the test just accepted (repeated variable across positions)")
@@ -807,3 +808,40 @@ def r14(R):
                  "(snapshot -> insert -> use paths: %s)" % (b.name, b.local_name(sl) or sl, b.local_name(src) or src, stale[:2]), not stale,
                  where=b.where(), detail=None if not stale else "`r :- edge. s :- edge. t :- r, s.`: r and s appear in round 1; round 2 joins them against a snapshot that holds neither")
     R.floor("C05-R14", "strategies that join against a snapshot of the fact set", n, 1)
+
+
+def r15(R):
+    """a probe with an open position reads the buckets of that position, not one fixed bucket"""
+    prog = R.prog
+    R.rule("C05-R15", "an open position means every bucket: in RuleIndex::query_candidate_rules a lookup in an inner map is keyed by a value of the probe "
+                      "(a bound position) or ranges over all its buckets (an open position). A lookup under a *constant* key - the WILDCARD bucket - "
+                      "answers `which rules have a variable there`, not `which rules could match`: a rule whose premise is ground at the open position "
+                      "is no longer a candidate, and the strategy that relies on the index stops short of the least model")
+    b = prog.one("RuleIndex::query_candidate_rules", crate="shared")
+    if not R.anchor("C05-R15", "query_candidate_rules", b):
+        return
+    n = 0
+    bad = []
+    for x in prog.family(b.key):
+        for c in x.calls():
+            if c.name() != "get" or len(c.args) < 2:
+                continue
+            n += 1
+            a = c.args[1]
+            const_key = a.get("k") == "const"
+            pl = F.op_place(a)
+            if pl is not None:
+                root = x.alias_root(a)
+                d = x.single_def(root if root is not None else pl["l"])
+                if d and d[0] == "assign" and d[3]["rv"] in ("use", "ref"):
+                    src = d[3].get("op") if d[3]["rv"] == "use" else None
+                    if src is not None and src.get("k") == "const":
+                        const_key = True
+            if const_key:
+                bad.append((x, c))
+    R.saw(b)
+    R.ob("C05-R15", "no-constant-bucket", "no lookup of query_candidate_rules is keyed by a constant (lookups: %d; under a constant key: %d)" % (n, len(bad)), not bad,
+         where=(bad[0][0].where(bad[0][1].ln) if bad else b.where()),
+         detail=None if not bad else "`(config mode strict)` as a ground guard premise: asked for the rules that mention predicate `mode`, the index answers with the "
+         "WILDCARD bucket only and the rule is never tried by the parallel strategy")
+    R.floor("C05-R15", "map lookups in query_candidate_rules", n, 6)
